@@ -257,11 +257,8 @@ func calcCueItvls(segStart, segDur, utcStart, cueDur int) []cueItvl {
 	cueFullS := int(math.Ceil(float64(cueDur) * 0.001))
 	cueFullMS := cueFullS * 1000
 
-	for utcS := utcStart / cueFullMS; utcS <= (utcStart+segDur)/cueFullMS; utcS += cueFullS {
+	for utcS := utcStart / cueFullMS * cueFullS; utcS*1000 < utcEndMS; utcS += cueFullS {
 		cueStartMS := utcS * 1000
-		if cueStartMS == utcEndMS {
-			break
-		}
 		ci := cueItvl{
 			utcS:    utcS,
 			startMS: cueStartMS,
@@ -272,6 +269,9 @@ func calcCueItvls(segStart, segDur, utcStart, cueDur int) []cueItvl {
 		}
 		if utcEndMS < ci.endMS {
 			ci.endMS = utcEndMS
+		}
+		if ci.endMS <= ci.startMS {
+			continue // This cue was already over when the segment starts
 		}
 		ci.startMS += diff
 		ci.endMS += diff
